@@ -253,7 +253,16 @@ Definition lex_one_with (lits : list (list N * bool * tok_kind))
            (rxs : list (string * bool * tok_kind)) (t : text) : option (nat * tok_kind) :=
   fold_left better (map (rx_candidate t) rxs) (fold_left better (map (lit_candidate t) lits) None).
 
-Definition lex_one (t : text) : option (nat * tok_kind) := lex_one_with literal_tokens regex_tokens t.
+(* logos does not fall back to '(' once it has entered the comment pattern's loop: an opener whose
+   comment never closes rejects (the rejected slice is the rest of the input, see err_len) *)
+Definition unclosed_comment (t : text) : bool :=
+  match t with
+  | 40 :: 42 :: _ => match m_comment t with Some _ => false | None => true end
+  | _ => false
+  end.
+
+Definition lex_one (t : text) : option (nat * tok_kind) :=
+  if unclosed_comment t then None else lex_one_with literal_tokens regex_tokens t.
 (* conversion must unfold [lex_one] before it looks inside the table-driven fold *)
 Strategy 1000 [lex_one_with].
 
